@@ -208,7 +208,9 @@ class Body(with_metaclass(HTTPSemantic, IFile)):
 		data = self.__content_iter()
 		for codec in (self.content_codec, self.transfer_codec):
 			if codec:
-				data = iter([codec.encode(d) for d in data if d])
+				# one coded stream for the whole content: zlib streams of single pieces cannot be concatenated
+				data = b''.join(d for d in data if d)
+				data = iter([codec.encode(data)] if data else [])
 		if self.chunked:
 			data = self.__compose_chunked_iter(data)
 		return data
